@@ -56,6 +56,8 @@ def gen(rng, nclasses=None, features='main'):
                 dtor = {'access': rng.choice(['pub', 'pub', 'prot', 'priv']), 'deleted': dl, 'virtual': (not dl) and rng.random() < 0.4}
             else:
                 dtor = {'access': 'pub', 'deleted': False, 'virtual': rng.random() < 0.4}
+            # a pure virtual destructor: the class is abstract, a derived class that declares no destructor is not
+            dtor['pure'] = dtor['virtual'] and not dtor['deleted'] and rng.random() < 0.4
         cc = special(0.3)
         cs.append({'bases': bases, 'fields': fields, 'methods': methods, 'dctor': special(0.3), 'cctor': cc,
                    'cctor_nonconst': bool(cc) and features == 'all' and rng.random() < 0.3,
@@ -102,7 +104,7 @@ def sexp(cs):
 
         def sp(s):
             return '-' if s is None else '(%s %s)' % (s['access'], b(s['deleted']))
-        dt = '-' if c['dtor'] is None else '(%s %s %s)' % (c['dtor']['access'], b(c['dtor']['deleted']), b(c['dtor']['virtual']))
+        dt = '-' if c['dtor'] is None else '(%s %s %s %s)' % (c['dtor']['access'], b(c['dtor']['deleted']), b(c['dtor']['virtual']), b(c['dtor'].get('pure', False)))
         out.append('((%s) (%s) (%s) %s %s %s %s %s %s)' % (bs, fs, ms, sp(c['dctor']), sp(c['cctor']), b(c['cctor_nonconst']), b(c['other_ctor']), b(c['move']), dt))
     return '(' + ' '.join(out) + ')'
 
@@ -150,7 +152,7 @@ def render(cs, prefix='K'):
             L.append('public:')
             L.append('  %s(%s &&);' % (name, name))
         if c['dtor']:
-            sp(c['dtor'], '%s~%s()' % ('virtual ' if c['dtor']['virtual'] else '', name))
+            sp(c['dtor'], '%s~%s()%s' % ('virtual ' if c['dtor']['virtual'] else '', name, ' = 0' if c['dtor'].get('pure') else ''))
         L.append('};')
     return '\n'.join(L) + '\n'
 
